@@ -31,7 +31,9 @@ U == CASE UName = "small1" -> AtomsSmall \cup Containers(AtomsSmall, Hashable(At
                                            D(<<VPair(VStr("b"), I), VPair(VStr("a"), S)>>),
                                            D(<<VPair(VStr("a"), I), VPair(VStr("b"), I)>>),
                                            \* string keys that cannot be fields of a class-syntax TypedDict
-                                           D(<<VPair(VStr("content-type"), I)>>), D(<<VPair(VStr("class"), S), VPair(VStr("a"), I)>>)}
+                                           D(<<VPair(VStr("content-type"), I)>>), D(<<VPair(VStr("class"), S), VPair(VStr("a"), I)>>),
+                                           \* a key that is NOT a string but hashes and compares like the string "a"
+                                           D(<<VPair(VAtom("mtfx.shapes.StrLike"), I)>>)}
                                   Two == {<<x, y>> : x \in Pool, y \in Pool}
                               IN  Pool \cup {I, Nn, S}
                                   \cup {VList(p) : p \in Two} \cup {VTuple(<<VList(p)>>) : p \in Two}
